@@ -351,9 +351,21 @@ def dropDot (numStr : List UInt8) : Nat × List UInt8 :=
   | some dx => (numStr.length - 1 - dx, numStr.take dx ++ numStr.drop (dx + 1))
   | none => (0, numStr)
 
-/-- Go: `decimalValueFromString` (repaired: the count of written fraction digits is an `int`) -/
+/-- the guard of the repaired `decimalValueFromString` (D10-S1, /repo 6916d90): the first `.` is directly
+followed by a sign (`dx+1 < len(s) && (s[dx+1] == '-' || s[dx+1] == '+')`) -/
+def signAfterDot (numStr : List UInt8) : Bool :=
+  match indexDot numStr with
+  | some dx =>
+    match numStr.drop (dx + 1) with
+    | c :: _ => c == 45 || c == 43
+    | [] => false
+  | none => false
+
+/-- Go: `decimalValueFromString` (repaired: the count of written fraction digits is an `int`; a point directly
+followed by a sign is refused as not a valid decimal number, before the precision is looked at) -/
 def decimalValueFromString (numStr : List UInt8) (fd : Nat) : Except NumErr Number :=
   if fd > 18 || fd < 1 then .error .badFd else
+  if signAfterDot numStr then .error .syntax else
   let fracDig := (dropDot numStr).1
   if fracDig > fd then .error .precision else
   let s := (dropDot numStr).2 ++ space18.take (fd - fracDig)
